@@ -119,6 +119,16 @@ Theorem dv_quiescent_is_converged : forall S,
 Proof. exact quiescent_is_converged. Qed.
 Print Assumptions dv_quiescent_is_converged.
 
+(* the whole state comes to rest: from ANY well-formed state, 2 INF + maxdist + 1 rounds of any fair (asynchronous)
+   schedule later, and ever after, every router has processed the current advertisement of each of its neighbours —
+   processing them again changes no stored cost, so nothing is left to announce — and the tables are converged *)
+Theorem dv_reaches_fixed_point : forall S n evs,
+  net_ok S -> settled (topo_of S) = true ->
+  (2 * N.to_nat INF + maxdist (topo_of S) + 1 <= n)%nat -> arounds (topo_of S) n S evs ->
+  fixedb (run S evs) = true /\ converged (run S evs) = true.
+Proof. exact reaches_full_fixed_point. Qed.
+Print Assumptions dv_reaches_fixed_point.
+
 (* non-vacuity: a triangle 1-2-3 with a fourth router behind 3.  Router 4 disappears and 3 notices: the state is
    well formed and settled but not converged (1 and 2 still route to 4), three rounds later the routers are
    counting to infinity, and after INF + maxdist = 17 rounds the tables are the shortest-path tables. *)
